@@ -14,6 +14,9 @@
 #include <vector>
 #include "case.h"
 
+// the oracle must not attract the coverage-guided fuzzer
+#define CDSVERIF_NOCOV __attribute__(( no_sanitize( "coverage" )))
+
 namespace cdsverif {
 
     struct Ev {
@@ -48,7 +51,7 @@ namespace cdsverif {
             ev[idx].r2 = r2;
             ev[idx].resp = tick();
         }
-        uint64_t hash() const
+        CDSVERIF_NOCOV uint64_t hash() const
         {
             uint64_t h = 0x1234;
             for ( Ev const& e : ev ) {
@@ -83,10 +86,10 @@ namespace cdsverif {
         uint64_t limit_;
         std::vector<int> order_;
 
-        bool search( uint64_t done, Model const& m )
+        CDSVERIF_NOCOV bool search( uint64_t done, Model& m )
         {
             size_t n = h_.size();
-            if ( done == ( n == 64 ? ~0ull : (( 1ull << n ) - 1 )))
+            if ( done == (( 1ull << n ) - 1 ))
                 return true;
             if ( ++nodes_ > limit_ )
                 return true;        // give up: counted as not decided, never as a violation
@@ -98,31 +101,35 @@ namespace cdsverif {
             for ( size_t i = 0; i < n; ++i )
                 if ( !( done & ( 1ull << i )) && h_[i].resp < min_resp )
                     min_resp = h_[i].resp;
+            Model saved = m;        // models mutate only when apply() succeeds
             for ( size_t i = 0; i < n; ++i ) {
                 if ( done & ( 1ull << i ))
                     continue;
                 if ( h_[i].inv > min_resp )
                     continue;       // some pending operation finished before this one began
-                Model m2 = m;
-                if ( m2.apply( h_[i] )) {
+                if ( m.apply( h_[i] )) {
                     order_.push_back( int( i ));
-                    if ( search( done | ( 1ull << i ), m2 ))
+                    if ( search( done | ( 1ull << i ), m ))
                         return true;
                     order_.pop_back();
+                    m = saved;
                 }
             }
             return false;
         }
 
     public:
-        explicit LinChecker( std::vector<Ev> const& h, uint64_t limit = 2000000 )
+        explicit LinChecker( std::vector<Ev> const& h, uint64_t limit = 100000 )
             : h_( h ), limit_( limit )
         {}
         bool check( Model const& init )
         {
-            if ( h_.size() > 62 )
+            if ( h_.size() > 62 ) {
+                nodes_ = limit_ + 1;    // too long to decide: reported as "gave up"
                 return true;
-            return search( 0, init );
+            }
+            Model m = init;
+            return search( 0, m );
         }
         bool gave_up() const { return nodes_ > limit_; }
         uint64_t nodes() const { return nodes_; }
@@ -138,9 +145,9 @@ namespace cdsverif {
            Q_FRONT = 6 };                    // single-consumer front(): value or -1
 
     struct FifoModel {
-        std::deque<int64_t> q;
+        std::vector<int64_t> q;
         int64_t cap = -1;       // -1: unbounded
-        bool apply( Ev const& e )
+        CDSVERIF_NOCOV bool apply( Ev const& e )
         {
             switch ( e.op ) {
             case Q_ENQ:
@@ -156,7 +163,7 @@ namespace cdsverif {
                     return q.empty();
                 if ( q.empty() || q.front() != e.r )
                     return false;
-                q.pop_front();
+                q.erase( q.begin());
                 return true;
             case Q_FRONT:
                 if ( e.r < 0 )
@@ -165,7 +172,7 @@ namespace cdsverif {
             }
             return false;
         }
-        uint64_t hash() const
+        CDSVERIF_NOCOV uint64_t hash() const
         {
             uint64_t h = 1;
             for ( int64_t v : q )
@@ -176,7 +183,7 @@ namespace cdsverif {
 
     struct LifoModel {
         std::vector<int64_t> s;
-        bool apply( Ev const& e )
+        CDSVERIF_NOCOV bool apply( Ev const& e )
         {
             if ( e.op == Q_ENQ ) {
                 if ( !e.r )
@@ -194,7 +201,7 @@ namespace cdsverif {
             }
             return false;
         }
-        uint64_t hash() const
+        CDSVERIF_NOCOV uint64_t hash() const
         {
             uint64_t h = 2;
             for ( int64_t v : s )
@@ -205,7 +212,7 @@ namespace cdsverif {
 
     struct DequeModel {
         std::deque<int64_t> d;
-        bool apply( Ev const& e )
+        CDSVERIF_NOCOV bool apply( Ev const& e )
         {
             switch ( e.op ) {
             case D_PUSH_FRONT:
@@ -229,7 +236,7 @@ namespace cdsverif {
             }
             return false;
         }
-        uint64_t hash() const
+        CDSVERIF_NOCOV uint64_t hash() const
         {
             uint64_t h = 3;
             for ( int64_t v : d )
@@ -242,7 +249,7 @@ namespace cdsverif {
     struct MaxPQModel {
         std::multiset<std::pair<int64_t, int64_t>> s;
         int64_t cap = -1;
-        bool apply( Ev const& e )
+        CDSVERIF_NOCOV bool apply( Ev const& e )
         {
             if ( e.op == Q_ENQ ) {
                 if ( e.r ) {
@@ -269,7 +276,7 @@ namespace cdsverif {
             }
             return false;
         }
-        uint64_t hash() const
+        CDSVERIF_NOCOV uint64_t hash() const
         {
             uint64_t h = 4;
             for ( auto const& p : s )
@@ -298,7 +305,7 @@ namespace cdsverif {
         // relaxed extract_min/max: side conditions are checked outside the search (see ordered harness);
         // inside the search extract_min(k) is "erase k, k present" unless strict_minmax
         bool strict_minmax = false;
-        bool apply( Ev const& e )
+        CDSVERIF_NOCOV bool apply( Ev const& e )
         {
             auto it = m.find( e.a );
             switch ( e.op ) {
@@ -379,7 +386,7 @@ namespace cdsverif {
             }
             return false;
         }
-        uint64_t hash() const
+        CDSVERIF_NOCOV uint64_t hash() const
         {
             uint64_t h = 5;
             for ( auto const& p : m )
